@@ -399,6 +399,32 @@ def run(ctx):
                 pushes = [tt for bb in success_walk(ue, tb)[:3] for tt in [ue.term(bb)] if tt["k"] == "call" and (callee_of(tt) or "").endswith("String::push")]
                 if pushes:
                     esc[chr(v)] = chr(const_int(pushes[0]["args"][1]))
+    if not esc:
+        # the table sits behind a helper / an Option (`match escape_value(c) { Some(v) => push(v), None => .. }`): for each character
+        # the match names, the paths below its arm are unfolded down to the first push and the pushed value is evaluated with the
+        # matched character bound
+        for b in sorted(ue.live_blocks()):
+            t = ue.term(b)
+            if not (t["k"] == "switch" and t.get("ty") == "char" and len(t["targets"]) >= 3):
+                continue
+            scrut = ue.expr(t["a"], 20)
+            def at_push(bb, tt, sub):
+                if (callee_of(tt) or "").endswith("String::push") and len(tt.get("args", [])) == 2:
+                    return ("push", sub(ue.expr(tt["args"][1], 20)))
+                return None
+            for v, tb in t["targets"]:
+                try:
+                    tree = formula.decision(ue, start=tb, leaf_of_call=at_push, leaf_of_block=lambda x, _h=set(kit.loops(ue)): ("loop",) if x in _h else None)
+                    env = {"prog": prog, "subst": (lambda e, _s=scrut, _v=v: _v if e == _s or (e[0] in ("local", "arg") and _s[0] in ("local", "arg") and e[1] == _s[1]) else None)}
+                    lab = formula.eval_decision(tree, env)
+                    if isinstance(lab, tuple) and lab and lab[0] == "push":
+                        val = formula.evaluate(lab[1], env)
+                        if isinstance(val, int):
+                            esc[chr(v)] = chr(val)
+                except (formula.NotATree, formula.Unknown, formula.Overflow):
+                    continue
+            if esc:
+                break
     ctx.instance(len(esc))
     wante = {"n": "\n", "t": "\t", "r": "\r", "\\": "\\", '"': '"'}
     ok = esc == wante
